@@ -24,6 +24,7 @@ import (
 	"io"
 	"math"
 	"regexp"
+	"regexp/syntax"
 	"sort"
 
 	"github.com/lindb/roaring"
@@ -206,8 +207,13 @@ func (b *TrieBucket) Suggest(prefix string, limit int) (rs []string) {
 
 // FindValuesByRegexp returns values by regexp expression.
 func (b *TrieBucket) FindValuesByRegexp(rp *regexp.Regexp, ids []uint32) []uint32 {
-	literalPrefix, _ := rp.LiteralPrefix()
-	literalPrefixByte := strutil.String2ByteSlice(literalPrefix)
+	// the literal prefix is the beginning of any match, it is the beginning of the key
+	// only if the expression must match at the beginning of the key.
+	var literalPrefixByte []byte
+	if regexpAnchoredAtBegin(rp) {
+		literalPrefix, _ := rp.LiteralPrefix()
+		literalPrefixByte = strutil.String2ByteSlice(literalPrefix)
+	}
 	for _, kv := range b.kvs {
 		itr := kv.tree.NewPrefixIterator(literalPrefixByte)
 		for itr.Valid() {
@@ -218,6 +224,19 @@ func (b *TrieBucket) FindValuesByRegexp(rp *regexp.Regexp, ids []uint32) []uint3
 		}
 	}
 	return ids
+}
+
+// regexpAnchoredAtBegin returns if any match of the expression starts at the beginning of the text.
+func regexpAnchoredAtBegin(rp *regexp.Regexp) bool {
+	re, err := syntax.Parse(rp.String(), syntax.Perl)
+	if err != nil {
+		return false
+	}
+	prog, err := syntax.Compile(re.Simplify())
+	if err != nil {
+		return false
+	}
+	return prog.StartCond()&syntax.EmptyBeginText != 0
 }
 
 // FindValuesByLike returns values by like expression.
